@@ -11,10 +11,10 @@ import (
 
 func init() {
 	register(&core.Property{
-		ID:    "C15",
-		Title: "Each TLS host is served with the certificate its Ingress declares, else default",
+		ID:          "C15",
+		Title:       "Each TLS host is served with the certificate its Ingress declares, else default",
 		Explanation: "Static decision of the certificate assignment mechanism: (1) a host's certificate fields are written only while no certificate is assigned (first declaration, in creation order, wins) — in the Ingress converter and in the Gateway converter; (2) addTLS returns the secret's certificate only on the nil-error edge of the permission-checked read, and otherwise the default certificate, which only readDefaultCertificate writes; (3) the cache getter fails for a secret without certificate/key, passes the certificate permission bit and the reader's namespace, and links the reader before reading (so a secret created, fixed or rotated later re-syncs exactly its readers); (4) the Ingress that declares spec.tls for a host is linked to that host; (5) the crt-list starts with the default certificate's `!*` entry and every host with a custom certificate or TLS option gets a line naming its own file; (6) an in-place rotation is attempted iff only the certificate content changed.",
-		NotDecided: []string{"SNI selection by HAProxy on the rendered crt-list", "x509 parsing of secrets"},
+		NotDecided:  []string{"SNI selection by HAProxy on the rendered crt-list", "x509 parsing of secrets"},
 		Rules: []*core.Rule{
 			{ID: "C15.first-wins", Floor: 4, Run: c15FirstWins, Doc: "Stores to Host.TLS.{TLSFilename,TLSHash} happen only on the `no certificate yet` edge (TLSHash == \"\"), or for the same certificate (gateway: same hash)."},
 			{ID: "C15.fallback", Floor: 3, Run: c15Fallback, Doc: "addTLS returns GetTLSSecretPath's file on its nil-error edge, else converter.defaultCrt; defaultCrt is written only by readDefaultCertificate (secret or fake)."},
@@ -278,7 +278,9 @@ func c15CrtList(c *core.Ctx) {
 			continue
 		}
 		b, err := tr.Bind(matchers{
-			"custom":  func(k string) bool { return strings.HasSuffix(k, "c.frontend.DefaultCrtFile)") && strings.Contains(k, " != ") },
+			"custom": func(k string) bool {
+				return strings.HasSuffix(k, "c.frontend.DefaultCrtFile)") && strings.Contains(k, " != ")
+			},
 			"alpn":    func(k string) bool { return strings.HasSuffix(k, `.ALPN != "")`) },
 			"ca":      func(k string) bool { return strings.HasSuffix(k, `.CAFilename != "")`) },
 			"ciphers": func(k string) bool { return strings.HasSuffix(k, `.Ciphers != "")`) },
